@@ -8,6 +8,7 @@ from ..core import AnalysisError, Checker, always_raises, call_name, calls_in, d
 from ..effects import Effects
 from ..guards import dominating_tests
 from .. import pattern_ops
+from ..tables import Denotations
 from .C02 import check_sites
 
 SUBC = 'cirbo.minimization.subcircuit'
@@ -176,8 +177,16 @@ def run(ck: Checker):
     ck.check({norm(h.type) for h in handlers} == {'NoSolutionError', 'SolverTimeOutError'} and all(isinstance(h.body[-1], ast.Continue) for h in handlers), 'C04.SIZE', m, fn,
              'no solution / time-out leave the circuit unchanged', 'exception handling changed', construct='minimize_subcircuits: search failures')
     ck.floor('C04.SIZE', 4)
+    ck.rule('C04.CONE', 'cone extraction folded over model circuits with an oracle cut family: leaf patterns, closed cones in topological order, size = gates other than NOT (the search budget), outputs = gates read from outside or circuit outputs, patterns = functions of the leaves, and the don\'t-care rows of evaluate_truth_table_with_dont_cares aligned with the pattern bits')
+    from .. import subc_fold
+    subc_fold.fold_cones(ck, 'C04.CONE')
+    ck.floor('C04.CONE', 3)
+    ck.rule('C06.DEC', 'the model decoder of the exact synthesis returns the k-th output at the gate chosen for the k-th row of the model (the splice pairs cone outputs with synthesised outputs by position; shared with C06)')
+    from . import C06 as _c06
+    _c06.dec_rule(ck, _c06.Finder(repo, Denotations(repo)))
+    ck.floor('C06.DEC', 2)
     ck.rule('C19.SUBC', 'replace_subcircuit, which splices the resynthesised cone, keeps outputs (order, multiplicity) and external users (shared with C19)')
     from .C19 import subc_rules
     subc_rules(ck)
-    ck.assume('NOT DECIDED: cut filtering, don\'t-care extraction, splice correctness, interface and truth-table equality in general, size non-increase')
+    ck.assume('NOT DECIDED: reachability analysis of _eval_dont_cares (while-loop counter), the splice of the main loop (renaming, trivial-output short cut beyond the POL/KEYDOM/OUTS/IDX clauses), truth-table equality in general, size non-increase')
     ck.assume('cirbo/minimization/subcircuit.py cannot be imported in this sandbox (mockturtle_wrapper, pysat missing): no test exercises it')
